@@ -132,6 +132,17 @@ class C07:
                 if sorted(rec + [blind]) != sorted(dr): P.fail(S, "blinding-recompute", "recomputed commitment blindings differ from the logged draws", ["commit %s <40 messages>" % suite])
                 if 0 in rec or len(set(rec + [blind])) != len(rec) + 1:
                     P.fail(S, "blinding-zero-or-repeated", "zero or repeated blinding within one commitment transcript", ["commit %s <40 messages>" % suite])
+            # blind proofs for a signature issued WITHOUT a commitment (no prover blind): every response scalar of every proof is fresh and non-zero
+            nb_ = P.blind_flows(S, suite, keys, [(2, None, b"h")], label="triv:blind-no-commitment")
+            if nb_:
+                seen_ = set()
+                for r in S.run([P.bpg_line(nb_[0], [0], [], b"p")] * max(4, n_rep // 2), expect="ok", label="blindproofgen(no commitment)-repeat"):
+                    note_draws(r)
+                    if r.status != "OK": continue
+                    pr_ = r.b(0); sc_ = [pr_[i:i+32] for i in range(144, len(pr_) - 32, 32)]
+                    if any(x_ == bytes(32) for x_ in sc_) or any(x_ in seen_ for x_ in sc_) or len(set(sc_)) != len(sc_):
+                        P.fail(S, "blinding-zero-or-repeated", "zero or repeated response scalar in a blind proof for a signature issued without a commitment", [pr_.hex()])
+                    seen_.update(sc_)
             res = S.run(["keyrandom %s" % suite] * n_rep, expect="ok", label="keyrandom-repeat")
             for r in res:
                 note_draws(r)
@@ -298,6 +309,9 @@ class C08:
                 jl.append("jsondec %s %s" % (kind, tb(bytes(rng.choice(b'{}[]",:0123456789abcdefAe_ \\nulltrue') for _ in range(rng.randrange(1, 120))))))
         # update_signature with n = usize::MAX - 1 (n + 1 generators = usize::MAX: a loop bound written count + 1 overflows): the call may take time
         # proportional to n (it is cut off after 3 s), it may not panic
+        # a signature whose exponent is - SK modulo r (SK + e = 0: nothing to invert): an error, not a panic
+        e_bad = (pyc.R - int.from_bytes(sk, "big")) % pyc.R
+        S.run(["update %s %s %s %s %s 0 %d" % (suite, tb(sk), tb(f["sig"][:48] + pyc.sc(e_bad)), tb(f["msgs"][0]), tb(b"new"), len(f["msgs"]))], expect="err", label="fe:update-e-is-minus-sk")
         old_to = S.timeout; S.timeout = 3
         ru = S.run(["update %s %s %s %s %s 0 %d" % (suite, tb(sk), tb(f["sig"]), tb(f["msgs"][0]), tb(b"new"), 2**64 - 2)], label="fe:update-n-max-minus-1", model=False)
         S.timeout = old_to
@@ -633,6 +647,10 @@ class C10:
                     dl.append(P.bpv_line(bp_, D=[0, bad_], dmsgs=[bp_["msgs"][0], b"x"]))          # out-of-range SIGNER index, a committed message disclosed
                     dl.append(P.bpv_line(bp_, D=[bad_], dmsgs=[b"x"]))
                 dl.append(P.bpv_line(bp_, Dc=[1, 9], dcmsgs=[bp_["cm"][1], b"x"]))
+            for b_ in bfl_:
+                M_ = len(b_["cm"])
+                for cnt_ in (M_ + 1, M_ + 2, M_ + 6, M_, 0):
+                    dl.append("dvc %s %s %d" % (suite, tob(b_["cwp"]), cnt_))      # exactly M + 1, SURPLUS (the first M + 1 are used), too few
             nsh = 2 if tier == "quick" else 50
             base = None
             for k in range(nsh):
